@@ -76,17 +76,17 @@ for m in ("u16_u32_p12", "u32_u64_p24", "u32_u64_p32", "u8_u32_p8"):
     kani(f"ans::{m}::decode_total", ["C10", "C20"], tier=t, fns=[DEC])
 
 for w, tier in (("u8_u16", "quick"), ("u32_u64", "quick"), ("u8_u32", "quick"), ("u16_u32", "thorough")):
-    kani(f"ans_io::{w}::export_import", ["C01", "C18", "C08"], tier=tier,
+    kani(f"ans_io::{w}::export_import", ["C01", "C18", "C08", "C12"], tier=tier,
          fns=[ST + "into_compressed", ST + "from_compressed", ST + "read_initial_state", ST + "num_words", ST + "num_bits", ST + "is_empty", ST + "iter_compressed", "lib.rs::bit_array_to_chunks_truncated", ST + "clone"],
          text="into_compressed == bulk ++ LE chunks of state without leading zero words; num_words/num_bits/is_empty/iter_compressed agree; from_compressed inverts it")
     kani(f"ans_io::{w}::import_any", ["C01"], tier=tier, fns=[ST + "from_compressed", ST + "read_initial_state"],
          text="from_compressed(d) refused iff d ends in a zero word; else inv holds and into_compressed returns d")
-    kani(f"ans_io::{w}::binary_roundtrip", ["C04", "C18", "C08", "C01", "C06"], tier=tier,
+    kani(f"ans_io::{w}::binary_roundtrip", ["C04", "C18", "C08", "C01", "C06", "C12"], tier=tier,
          fns=[ST + "from_binary", ST + "into_binary", ST + "get_binary", ST + "num_valid_bits", "stack.rs::CoderGuard<SEALED=true>::{new,drop}"],
          text="for ANY words d (incl. trailing zero words, empty): into_binary(from_binary(d)) == d; num_valid_bits == wb*|d|; get_binary shows d and restores the coder")
     kani(f"ans_io::{w}::binary_export_any", ["C04"], tier=tier, fns=[ST + "into_binary", ST + "from_binary"],
          text="into_binary is Ok iff the payload is a whole number of words; then from_binary inverts it")
-    kani(f"ans_io::{w}::guard_compressed", ["C08", "C01", "C12"], tier=tier, fns=[ST + "get_compressed", "stack.rs::CoderGuard<SEALED=false>::{new,drop}"],
+    kani(f"ans_io::{w}::guard_compressed", ["C08", "C01", "C12", "C06"], tier=tier, fns=[ST + "get_compressed", "stack.rs::CoderGuard<SEALED=false>::{new,drop}"],
          text="get_compressed view == what into_compressed would return; drop restores (bulk,state)")
     kani(f"ans_io::{w}::pos_seek", ["C07"], tier=tier, fns=["stack.rs::<AnsCoder as Pos>::pos", "stack.rs::<AnsCoder as Seek>::seek"],
          text="pos()==(|bulk|,state); seek((p,s)) truncates to p and installs s; p > |bulk| refused, coder unchanged")
